@@ -32,5 +32,7 @@ def run(ctx):
         ctx.call(norm_rules.limit_parse_types, prog, "R3")
         ctx.call(xml_rules.type_attributes, prog, "R3")
         ctx.call(simple_rules.formulas, prog, "R3")
+        ctx.call(simple_rules.pop_point_tables, prog, "R2")
+        ctx.call(simple_rules.indices_wiring, prog, "R2")
         ctx.call(norm_rules.normalize_value_table, prog, "R4", "R4")
     ctx.cfg = None
